@@ -1,10 +1,10 @@
-\* sampled: random trees of exactly 4 nodes, depth <= 3, all names, all metadata (incl. modes without permission bits), all Read behaviours
+\* sampled: random trees of exactly 4 nodes, depth <= 3, all names, all metadata (incl. modes without permission bits), 3 Read behaviours
 SPECIFICATION GSpecSim
 CONSTANTS Names <- NamesMore
           Types <- TypesAll
           Bodies <- BodiesAll
-          Readers <- ReaderClasses
-          Modes <- ModesFive
+          Readers <- ReadSim
+          Modes <- ModesFour
           Mtimes <- MtimesAll
           MaxNodes = 4
           MaxDepth = 3
